@@ -7,9 +7,12 @@ import (
 	"verif/harness/internal/core"
 )
 
-// Exhaustive enumerations (filled in below); the int argument caps the number of programs
-// (<= 0: the whole space).
-var Exhaustive = map[string]func(seed uint64, n int) [][]core.Op{}
+// Exhaustive enumerations; the int argument caps the number of cases (<= 0: the whole space).
+var Exhaustive = map[string]func(seed uint64, n int) [][]core.Op{
+	"c04x":    truthTable,
+	"c11x":    func(seed uint64, n int) [][]core.Op { return listUniverse(seed, n, c11Safe) },
+	"c11xmem": func(seed uint64, n int) [][]core.Op { return listUniverse(seed, n, c11Mem) },
+}
 
 // ClockHypothesis re-measures what the Model assumes about time.Now(): strictly increasing
 // readings across successive calls. A failure is reported as a failed hypothesis, not as a
@@ -24,4 +27,154 @@ func ClockHypothesis() []string {
 		prev = now
 	}
 	return nil
+}
+
+// C04: the whole table — 4 parameters x {unset, = current, != current, (0 | unparsable)} x object
+// state {absent, fresh, patched twice, overwritten} x operation {media, multipart, resumable,
+// patch, delete, compose destination, compose source}. After every request the object's metadata
+// and media are read back, and finally the whole bucket is listed.
+func truthTable(seed uint64, n int) [][]core.Op {
+	gmVals := []string{"u", "cur", "other", "zero", "bad"}
+	other := []string{"u", "cur", "other", "bad"}
+	states := []string{"absent", "fresh", "patched", "overwritten"}
+	ops := []string{"media", "multipart", "resumable", "patch", "delete", "compose-dst", "compose-src"}
+	type cs struct {
+		c     Conds
+		state string
+		op    string
+	}
+	var all []cs
+	for _, a := range gmVals {
+		for _, b := range other {
+			for _, c := range other {
+				for _, d := range other {
+					for _, st := range states {
+						for _, op := range ops {
+							all = append(all, cs{Conds{a, b, c, d}, st, op})
+						}
+					}
+				}
+			}
+		}
+	}
+	stride := 1
+	if n > 0 && len(all) > n {
+		stride = len(all) / n
+	}
+	off := 0
+	if stride > 1 {
+		off = core.NewRng(seed).Intn(stride)
+	}
+	var progs [][]core.Op
+	for i, x := range all {
+		if (i+off)%stride != 0 {
+			continue
+		}
+		p := []core.Op{&Op{Kind: "mkbucket", B: "bk"},
+			&Op{Kind: "upload", B: "bk", N: "other", Content: []byte("keep"), Proto: "media", Declared: "none", Meta: Meta{CT: "text/plain"}},
+			&Op{Kind: "upload", B: "bk", N: "src", Content: []byte("S"), Proto: "media", Declared: "none", Meta: Meta{CT: "text/plain"}}}
+		ct := "text/plain"
+		switch x.state {
+		case "fresh", "patched", "overwritten":
+			p = append(p, &Op{Kind: "upload", B: "bk", N: "obj", Content: []byte("v1"), Proto: "multipart", Declared: "none", Meta: Meta{CT: ct, UM: []KV{{"k1", "v"}}}})
+		}
+		if x.state == "patched" {
+			cc := "no-cache"
+			p = append(p, &Op{Kind: "patch", B: "bk", N: "obj", PatchCC: &cc}, &Op{Kind: "patch", B: "bk", N: "obj", Meta: Meta{UM: []KV{{"k2", "w"}}}})
+		}
+		if x.state == "overwritten" {
+			p = append(p, &Op{Kind: "upload", B: "bk", N: "obj", Content: []byte("v2"), Proto: "media", Declared: "none", Meta: Meta{CT: ct}})
+		}
+		switch x.op {
+		case "media":
+			p = append(p, &Op{Kind: "upload", B: "bk", N: "obj", Content: []byte("new"), Proto: "media", Declared: "none", Meta: Meta{CT: "image/png"}, Conds: x.c})
+		case "multipart":
+			p = append(p, &Op{Kind: "upload", B: "bk", N: "obj", Content: []byte("new"), Proto: "multipart", Declared: "ok", Meta: Meta{CT: "image/png", CC: "private"}, Conds: x.c})
+		case "resumable":
+			p = append(p, &Op{Kind: "resinit", B: "bk", N: "obj", Content: []byte("new"), Declared: "none", Meta: Meta{CT: "image/png"}, Conds: x.c},
+				&Op{Kind: "reschunk", B: "bk", Idx: 1, Range: "0 1 -1", RawRange: "bytes 0-1/*", Content: []byte("ne")},
+				&Op{Kind: "reschunk", B: "bk", Idx: 1, Range: "2 2 3", RawRange: "bytes 2-2/3", Content: []byte("w")})
+		case "patch":
+			cc := "max-age=60"
+			p = append(p, &Op{Kind: "patch", B: "bk", N: "obj", PatchCC: &cc, Conds: x.c})
+		case "delete":
+			p = append(p, &Op{Kind: "delete", B: "bk", N: "obj", Conds: x.c})
+		case "compose-dst":
+			p = append(p, &Op{Kind: "compose", B: "bk", N: "obj", Conds: x.c, Srcs: []Src{{Name: "src"}, {Name: "other"}}, HasMeta: true, Meta: Meta{CT: "text/plain"}})
+		case "compose-src":
+			// the per-source condition is the first parameter only (ifGenerationMatch)
+			sc := x.c[0]
+			if sc == "zero" || sc == "bad" {
+				sc = "other"
+			}
+			p = append(p, &Op{Kind: "compose", B: "bk", N: "dst", Srcs: []Src{{Name: "obj", Cond: sc}, {Name: "src"}}, HasMeta: true, Meta: Meta{CT: "text/plain"}},
+				&Op{Kind: "getmeta", B: "bk", N: "dst"}, &Op{Kind: "getmedia", B: "bk", N: "dst"})
+		}
+		p = append(p, &Op{Kind: "getmeta", B: "bk", N: "obj"}, &Op{Kind: "getmedia", B: "bk", N: "obj"},
+			&Op{Kind: "getmeta", B: "bk", N: "other"}, &Op{Kind: "listall", B: "bk", Max: 1000})
+		progs = append(progs, p)
+	}
+	return progs
+}
+
+// C11: all subsets of a small name universe x every prefix of every name x delimiters x page
+// sizes, each listing followed to the end.
+var c11Mem = []string{"a", "a.txt", "a/b", "a/b/c", "a-b", "a/c", "b", "a b", "ab"}
+var c11Safe = []string{"a.txt", "a/b", "a/c/d", "a-b", "a/c/e", "b", "a b", "ab", "a.b/c"}
+
+func listUniverse(seed uint64, n int, universe []string) [][]core.Op {
+	prefixSet := map[string]bool{"": true}
+	for _, nm := range universe {
+		for i := 1; i <= len(nm); i++ {
+			prefixSet[nm[:i]] = true
+		}
+	}
+	var prefixes []string
+	for _, nm := range append([]string{""}, universe...) {
+		for i := 0; i <= len(nm); i++ {
+			if prefixSet[nm[:i]] {
+				prefixes = append(prefixes, nm[:i])
+				delete(prefixSet, nm[:i])
+			}
+		}
+	}
+	delims := []string{"", "/", ".", "/b"}
+	maxes := []int{1, 2, 3, 1000}
+	subsets := 1 << len(universe)
+	perSubset := len(prefixes) * len(delims) * len(maxes)
+	total := subsets * perSubset
+	stride := 1
+	if n > 0 && total > n {
+		stride = total / n
+	}
+	off := 0
+	if stride > 1 {
+		off = core.NewRng(seed).Intn(stride)
+	}
+	var progs [][]core.Op
+	idx := 0
+	for mask := 0; mask < subsets; mask++ {
+		var p []core.Op
+		p = append(p, &Op{Kind: "mkbucket", B: "bk"})
+		for i, nm := range universe {
+			if mask&(1<<i) != 0 {
+				p = append(p, &Op{Kind: "upload", B: "bk", N: nm, Content: []byte{byte('0' + i)}, Proto: "media", Declared: "none", Meta: Meta{CT: "text/plain"}})
+			}
+		}
+		base := len(p)
+		for _, pf := range prefixes {
+			for _, d := range delims {
+				for _, m := range maxes {
+					if (idx+off)%stride == 0 {
+						p = append(p, &Op{Kind: "listall", B: "bk", Prefix: pf, Delim: d, Max: m})
+					}
+					idx++
+				}
+			}
+		}
+		if len(p) > base {
+			progs = append(progs, p)
+		}
+	}
+	return progs
 }
